@@ -18,6 +18,15 @@ const CHARSET: &[u8] = b"qpzry9x8gf2tvdw0s3jn54khce6mua7l";
 const HRPCH: &[u8] = b"abcdefghijklmnopqrstuvwxyz0123456789ABCDEFGHIJKLMNOPQRSTUVWXYZ-_.!";
 const NAMES: [&str; 4] = ["from_str", "parse_with_params(LIQUID)", "parse_with_params(ELEMENTS)", "parse_with_params(LIQUID_TESTNET)"];
 
+/// address parameters of a network whose segwit prefixes are both `hrp` (leaked once per distinct prefix)
+fn custom_params(hrp: &str, h: bech32::Hrp) -> &'static elements::AddressParams {
+    use std::collections::HashMap;
+    use std::sync::Mutex;
+    static M: Mutex<Option<HashMap<String, &'static elements::AddressParams>>> = Mutex::new(None);
+    let mut g = M.lock().unwrap();
+    *g.get_or_insert_with(HashMap::new).entry(hrp.to_string())
+        .or_insert_with(|| Box::leak(Box::new(elements::AddressParams { bech_hrp: h, blech_hrp: h, ..elements::AddressParams::ELEMENTS })))
+}
 fn apply_edits(orig: &str, edits: &str) -> Option<String> {
     let mut b = orig.as_bytes().to_vec();
     for e in edits.split(',') {
@@ -126,11 +135,23 @@ pub fn eval(case: &str) -> Out {
             if i >= b.len() || j >= b.len() || !b[i].is_ascii() || !b[j].is_ascii() { return Out::ok("harnesserr pos".into()); }
             let (mut n, mut acc, mut mix, mut h) = (0u64, 0u64, 0u64, 0u64);
             let mut first_bad: Option<(String, usize)> = None;
+            let sep = orig.rfind('1').unwrap_or(0);
+            let mut custom_bad: Option<String> = None;
             let mut visit = |m: &[u8]| {
                 let s = std::str::from_utf8(m).unwrap();
                 let rs = four(s);
                 n += 1;
                 if let Some(k) = rs.iter().position(|r| r.is_ok()) { acc += 1; if first_bad.is_none() { first_bad = Some((s.to_string(), k)); } }
+                // the built-in networks refuse a corrupted prefix before any checksum is looked at; what the CHECKSUM detects is observed with
+                // a network whose prefixes ARE the corrupted one (parse_with_params with custom AddressParams) and at the blech32 decoder itself
+                if custom_bad.is_none() && i < sep && j < sep {
+                    if let Ok(h) = bech32::Hrp::parse(&s[..sep]) {
+                        let p: &'static elements::AddressParams = custom_params(&s[..sep], h);
+                        if Address::parse_with_params(s, p).is_ok() { custom_bad = Some(format!("parse_with_params (a network with the prefix {})", &s[..sep])); }
+                    }
+                    if elements::blech32::decode::SegwitHrpstring::new(s).is_ok() { custom_bad = Some("blech32::decode::SegwitHrpstring::new".to_string()); }
+                    if custom_bad.is_some() && first_bad.is_none() { first_bad = Some((s.to_string(), 0)); }
+                }
                 if let Err(e) = &rs[0] { if err_name(e).ends_with("mixedcase") { mix += 1; } }
                 for c in show_res(&rs[0]).bytes().chain(std::iter::once(b'\n')) { h = (h * 131 + c as u64) & 0xffff_ffff; }
             };
@@ -142,7 +163,7 @@ pub fn eval(case: &str) -> Out {
                     m[j] = b[j];
                 }
             }
-            let pred_fail = if is_segwit(&o) { first_bad.as_ref().map(|(s, k)| format!("hrp-corruption-accepted|{} accepts {} which differs from the valid address {} only in one or two characters of the human-readable part", NAMES[*k], s, orig)) } else { None };
+            let pred_fail = if is_segwit(&o) { first_bad.as_ref().map(|(s, k)| format!("hrp-corruption-accepted|{} accepts {} which differs from the valid address {} only in one or two characters of the human-readable part", custom_bad.clone().unwrap_or(NAMES[*k].to_string()), s, orig)) } else { None };
             Out { result: format!("orig=[{}] n={} acc={} mix={} h={} first={}", show_res(&o), n, acc, mix, h, first_bad.map(|(s, _)| s).unwrap_or("-".into())), pred_fail }
         }
         _ => Out::ok("harnesserr args".into()),
